@@ -47,6 +47,8 @@ def _collect_routing(mb, run, res, stats, covered):
             max_pending = max(max_pending, pending)
         elif k == 'exec_end':
             pending -= 1
+    if run.get('connect'):
+        probes['user_ports_bound_via_ConnectPorts'] = probes.get('user_ports_bound_via_ConnectPorts', 0) + 1
     if max_pending >= 2:
         probes['two_or_more_closures_in_flight'] = probes.get('two_or_more_closures_in_flight', 0) + 1
     if max_pending >= 4:
